@@ -1,6 +1,7 @@
 """Host xandikos.wsgi:app behind wsgiref.simple_server, the way the README's
 uwsgi/mod_wsgi examples do, with the WellknownRedirector in front.
-Environment: XANDIKOSPATH, CURRENT_USER_PRINCIPAL, AUTOCREATE, VF_PORTFILE, VF_PREFIX."""
+Environment: XANDIKOSPATH, CURRENT_USER_PRINCIPAL, AUTOCREATE, VF_PORTFILE, VF_PREFIX; VF_THREADS=1 serves every
+request in its own thread (what uwsgi --threads / mod_wsgi daemon threads do: several requests inside one process)."""
 import os
 import sys
 from wsgiref.simple_server import WSGIRequestHandler, WSGIServer, make_server
@@ -45,7 +46,14 @@ class Quiet(WSGIRequestHandler):
         pass
 
 
-httpd = make_server("127.0.0.1", 0, mounted, server_class=WSGIServer, handler_class=Quiet)
+server_class = WSGIServer
+if os.environ.get("VF_THREADS") == "1":
+    import socketserver
+
+    class ThreadingWSGIServer(socketserver.ThreadingMixIn, WSGIServer):
+        daemon_threads = True
+    server_class = ThreadingWSGIServer
+httpd = make_server("127.0.0.1", 0, mounted, server_class=server_class, handler_class=Quiet)
 pf = os.environ["VF_PORTFILE"]
 with open(pf + ".tmp", "w") as f:
     f.write(str(httpd.server_address[1]))
